@@ -216,6 +216,8 @@ pub struct HookState {
     pub forced: Vec<(&'static str, Vec<u8>)>,
     pub draws: u64,
     pub site_draws: std::collections::BTreeMap<&'static str, u64>,
+    /// what the generator handed out at the nonce start site, in order
+    pub nonce_fills: Vec<Vec<u8>>,
 }
 
 pub type HookHandle = Rc<RefCell<HookState>>;
@@ -230,6 +232,7 @@ pub fn install_hooks(seed: u64) -> HookHandle {
         forced: Vec::new(),
         draws: 0,
         site_draws: Default::default(),
+        nonce_fills: Vec::new(),
     }));
     let s1 = st.clone();
     let s2 = st.clone();
@@ -242,6 +245,9 @@ pub fn install_hooks(seed: u64) -> HookHandle {
             if let Some(pos) = st.forced.iter().position(|(s, v)| *s == site && v.len() == buf.len()) {
                 let (_, v) = st.forced.remove(pos);
                 buf.copy_from_slice(&v);
+                if site == "core.nonce_start" {
+                    st.nonce_fills.push(buf.to_vec());
+                }
                 return;
             }
             st.stream.fill(buf);
@@ -269,6 +275,8 @@ pub fn install_hooks(seed: u64) -> HookHandle {
                         }
                     }
                 }
+                let v = buf.to_vec();
+                st.nonce_fills.push(v);
             }
         })),
         probe: Some(Box::new(move |ev| {
